@@ -94,6 +94,13 @@ static void build_attempts()
         ATT(n + "istream >> t", vf::EX_UNICODE, std::istringstream is(d + " tail"); TRY(is >> t));
         ATT(n + "stream.to_string()", vf::EX_UNICODE, ST::string_stream ss; ss << "0123456789"; ss.append(d.data(), d.size());
             std::string b4 = dump(ss); TRY(t = ss.to_string()); if (dump(ss) != b4) problem = "the stream changed during a failed to_string()");
+        // every text argument type a format call accepts (the result is validated; nothing may be left behind)
+        ATT(n + "t = format({}, cstr)", vf::EX_UNICODE, TRY(t = ST::format("{}", d.c_str())));
+        ATT(n + "t = format(x{>5}, std::string)", vf::EX_UNICODE, TRY(t = ST::format("x{>5}", d)));
+        ATT(n + "t = format({}, string_view)", vf::EX_UNICODE, TRY(t = ST::format("{}", std::string_view(d))));
+        ATT(n + "t = format({}, char8_t cstr)", vf::EX_UNICODE, TRY(t = ST::format("{}", (const char8_t *)d.c_str())));
+        ATT(n + "t = format({}, u8string)", vf::EX_UNICODE, std::u8string u((const char8_t *)d.data(), d.size()); TRY(t = ST::format("{}|{}", 1, u)));
+        ATT(n + "t = format({}, char_buffer)", vf::EX_UNICODE, ST::char_buffer arg(d.data(), d.size()); TRY(t = ST::format("{}", arg)));
     }
     k = 0;
     for (const std::u16string &d : bad16) {
@@ -117,6 +124,17 @@ static void build_attempts()
             ATT(n + vf::strf("stream[%zu] << std::u16string_view", pre), vf::EX_UNICODE, ST::string_stream ss; ss.append_char('s', pre); std::string b4 = dump(ss);
                 TRY(ss << std::u16string_view(d)); if (dump(ss) != b4) problem = "the stream changed during a failed insertion");
         }
+    }
+    k = 0;
+    for (const std::u16string &d : bad16) {
+        std::string n = vf::strf("utf16#%d:", k++);
+        ATT(n + "t = format({}, u16 cstr)", vf::EX_UNICODE, TRY(t = ST::format("{}", d.c_str())));
+        ATT(n + "t = format(x{<4}y, std::u16string)", vf::EX_UNICODE, TRY(t = ST::format("x{<4}y", d)));
+        ATT(n + "t = format({}, u16string_view)", vf::EX_UNICODE, TRY(t = ST::format("{}", std::u16string_view(d))));
+        ATT(n + "t = format({}, utf16_buffer)", vf::EX_UNICODE, ST::utf16_buffer arg(d.data(), d.size()); TRY(t = ST::format("{}", arg)));
+        ATT(n + "ostringstream writef({}, u16 cstr)", vf::EX_UNICODE, std::ostringstream os; TRY(ST::writef(os, "{}", d.c_str())));
+        ATT(n + "string_stream << format-style: stream << u16 cstr twice", vf::EX_UNICODE, ST::string_stream ss; ss.append_char('s', 300); ss.truncate(3);
+            std::string b4 = dump(ss); TRY(ss << d.c_str()); if (dump(ss) != b4) problem = "the stream changed during a failed insertion");
     }
     k = 0;
     for (const std::u32string &d : bad32) {
@@ -152,6 +170,12 @@ static void build_attempts()
             TRY(ss << std::wstring_view(w)); if (dump(ss) != b4) problem = "the stream changed during a failed insertion");
         ATT(n + "stream << wchar cstr", vf::EX_UNICODE, ST::string_stream ss; ss.append_char('s', 5); std::string b4 = dump(ss); TRY(ss << w.c_str());
             if (dump(ss) != b4) problem = "the stream changed during a failed insertion");
+        ATT(n + "t = format({}, u32 cstr)", vf::EX_UNICODE, TRY(t = ST::format("{}", d.c_str())));
+        ATT(n + "t = format({}, std::u32string)", vf::EX_UNICODE, TRY(t = ST::format("{}", d)));
+        ATT(n + "t = format({}, std::wstring)", vf::EX_UNICODE, TRY(t = ST::format("{}", w)));
+        ATT(n + "t = format({}, wstring_view)", vf::EX_UNICODE, TRY(t = ST::format("{}", std::wstring_view(w))));
+        ATT(n + "t = format({}, utf32_buffer)", vf::EX_UNICODE, ST::utf32_buffer arg(d.data(), d.size()); TRY(t = ST::format("{}", arg)));
+        ATT(n + "t = format({}, wchar_buffer)", vf::EX_UNICODE, ST::wchar_buffer arg(w.data(), w.size()); TRY(t = ST::format("{}", arg)));
         ATT(n + "t = format({}, u32string_view)", vf::EX_UNICODE, TRY(t = ST::format("{}", std::u32string_view(d))));
         ATT(n + "t = format({}, wchar cstr)", vf::EX_UNICODE, TRY(t = ST::format("x{}", w.c_str())));
     }
